@@ -7,7 +7,7 @@ from ..cfg import ReachingDefs
 from ..rules_lock import stmt_text
 
 CLAIM = ("static analysis (writer/reader name agreement between __str__, the _handle_* family and rrule.__init__; "
-         "constant-table agreement; emission guards; token-slicing agreement in the BYDAY handler; regex AST of the "
+         "constant-table agreement; emission guards; fixed-width year of emitted date-times; scanner/consumer separator agreement for TZID names; token-slicing agreement in the BYDAY handler; regex AST of the "
          "TZID scanner; set-selection branches; loop progress of the unfolder): necessary conditions of C13; equality "
          "of occurrences for all rules and spellings is not decided")
 TECHNIQUE = "FIELD writer/reader set comparison, CONST table folding, must-hold branch facts, regex-AST inspection, loop-progress check (ast only)"
@@ -21,8 +21,8 @@ EXPLANATION = (
     "as {n:+d}{WD}. C13.YEARPAD: no statement that writes DTSTART / UNTIL uses a %Y-family strftime directive (not "
     "zero-padded below year 1000 on glibc). C13.WDAY: in the '+1MO' form the ordinal and the weekday code are the complementary slices "
     "[:i] / [i:] at the index where the scan over the WHOLE token stopped, the 'MO(+1)' form splits at '('; the "
-    "result goes through weekdays[_weekday_map[w]](n). C13.TZID: the TZID scanner accepts every character except "
-    "':' in a name (regex AST). C13.SET: compatible implies forceset and unfold; the set branch is taken for "
+    "result goes through weekdays[_weekday_map[w]](n). C13.TZID: a TZID name scanned by the regex ends exactly at the separators at "
+    "which _parse_rfc split()s a property line (':' and ';'), any other character is allowed (regex AST vs consumer). C13.SET: compatible implies forceset and unfold; the set branch is taken for "
     "forceset / several RRULEs / any RDATE, EXRULE, EXDATE; under compatible the start is added as an RDATE; unknown "
     "properties and parameters raise ValueError. C13.TERM: the unfold loop makes progress on every path. "
     "C13.FREQ: a rule text without FREQ is rejected with ValueError before the constructor is called. C13.EXC: the "
@@ -279,9 +279,27 @@ def run(ctx):
         raise AnalysisError("C13.TZID", pr.qualname, "TZID scanner regex not found")
     import re._parser as sre
     tree = sre.parse(pats[0])
+    # the characters at which the consumer cuts a property line into name / parameters / value: a scanned name that can
+    # run across one of them is a name the consumer never looks up (the lookup fails and the zone is silently dropped)
+    seps = set()
+    heads = set()     # the variable holding "NAME;param;param" after the cut at ':'
+    for n in walk_local(pr.node):
+        if isinstance(n, ast.Assign) and isinstance(n.value, ast.Call) and isinstance(n.value.func, ast.Attribute) and n.value.func.attr == "split" \
+                and n.value.args and isinstance(n.value.args[0], ast.Constant) and n.value.args[0].value == ":" \
+                and isinstance(n.targets[0], ast.Tuple) and n.targets[0].elts and isinstance(n.targets[0].elts[0], ast.Name):
+            seps.add(ord(":"))
+            heads.add(n.targets[0].elts[0].id)
+    for n in walk_local(pr.node):
+        if isinstance(n, ast.Call) and isinstance(n.func, ast.Attribute) and n.func.attr == "split" and n.args \
+                and isinstance(n.func.value, ast.Name) and n.func.value.id in heads \
+                and isinstance(n.args[0], ast.Constant) and isinstance(n.args[0].value, str) and len(n.args[0].value) == 1:
+            seps.add(ord(n.args[0].value))
+    if ord(":") not in seps:
+        raise AnalysisError("C13.TZID", pr.qualname, "the split of a property line at ':' was not found")
     ok = False
     desc = ""
-    for op, av in tree:
+    items = list(tree)
+    for k, (op, av) in enumerate(items):
         if str(op) == "SUBPATTERN":
             sub = av[3]
             if len(sub) == 1 and str(sub[0][0]) == "MAX_REPEAT":
@@ -289,12 +307,24 @@ def run(ctx):
                 if len(body) == 1:
                     bop, bav = body[0]
                     desc = "%s %s" % (bop, bav)
-                    if str(bop) == "NOT_LITERAL" and bav == ord(":") and lo >= 1:
-                        ok = True
-                    if str(bop) == "IN" and [str(x[0]) for x in bav][:1] == ["NEGATE"] and [x[1] for x in bav[1:]] == [ord(":")] and lo >= 1:
-                        ok = True
-    ctx.ob("C13.TZID", pr, "a TZID name may contain any character except the ':' that ends the parameter", ok, construct="TZID regex: %s" % pats[0],
-           detail="" if ok else "name class is %s: zone names with other characters (e.g. '-') are silently dropped" % desc, analysis="regex AST")
+                    excl = None
+                    if str(bop) == "NOT_LITERAL":
+                        excl = {bav}
+                    if str(bop) == "IN" and [str(x[0]) for x in bav][:1] == ["NEGATE"] and all(str(x[0]) == "LITERAL" for x in bav[1:]):
+                        excl = set(x[1] for x in bav[1:])
+                    # what must follow the name: one of the separators
+                    after = None
+                    if k + 1 < len(items):
+                        aop, aav = items[k + 1]
+                        if str(aop) == "LITERAL":
+                            after = {aav}
+                        elif str(aop) == "IN" and all(str(x[0]) == "LITERAL" for x in aav):
+                            after = set(x[1] for x in aav)
+                    ok = excl is not None and excl == seps and lo >= 1 and after is not None and after == seps
+    ctx.ob("C13.TZID", pr, "a TZID name scanned from the text ends exactly where the consumer cuts the property line (at %s) and may contain "
+           "any other character" % ", ".join(repr(chr(c)) for c in sorted(seps)), ok, construct="TZID name scanner",
+           detail="" if ok else "pattern %r: name class is %s, consumer separators are %s - a name can run across a separator (zone silently dropped) "
+           "or other characters are excluded" % (pats[0], desc, sorted(chr(c) for c in seps)), analysis="regex AST vs the consumer's split() separators")
     pdv = prog.method(rs.qualname, "_parse_date_value", "C13.TZID")
     lookups = [src(n) for n in walk_local(pdv.node) if isinstance(n, ast.Assign) and src(n.targets[0]) == "tzlookup"]
     ctx.ob("C13.TZID", pdv, "TZIDs resolve through tzids (callable or mapping .get) and default to tz.gettz", sorted(lookups) == sorted(
